@@ -7,6 +7,7 @@ import (
 
 	"github.com/cosi-project/runtime/pkg/resource"
 	"github.com/cosi-project/runtime/pkg/state"
+	"github.com/cosi-project/runtime/zzverif/verif"
 	"github.com/cosi-project/runtime/pkg/resource/meta"
 	"github.com/cosi-project/runtime/pkg/resource/meta/spec"
 	"github.com/cosi-project/runtime/pkg/resource/typed"
@@ -124,4 +125,154 @@ func (c *Counting) WatchKind(ctx context.Context, k resource.Kind, ch chan<- sta
 func (c *Counting) WatchKindAggregated(ctx context.Context, k resource.Kind, ch chan<- []state.Event, o ...state.WatchKindOption) error {
 	c.Calls++
 	return c.Inner.WatchKindAggregated(ctx, k, ch, o...)
+}
+
+// Write is one committed change of the store.
+type Write struct {
+	Actor  string // "caller" or "env"
+	Kind   string // create | update | destroy
+	Before resource.Resource // nil if absent
+	After  resource.Resource // nil if destroyed
+}
+
+// Interpose is a single-threaded CoreState wrapper that models concurrency at
+// store-operation granularity: before every call of the party under test it
+// lets an environment callback perform interfering operations on the same
+// store, and it logs every committed write with its before/after value.
+type Interpose struct {
+	Inner state.CoreState
+	Env   func(op string, ptr resource.Pointer) // may call methods of the Interpose itself
+	inEnv bool
+
+	Log           []Write
+	CallerReads   []resource.Resource // results of the caller's Get calls (nil = not found)
+	CallerUpdates int
+	CallerCalls   int
+	EnvWrites     int
+	WatchAt       []int               // len(Log) at each Watch registration
+	WatchInitial  []resource.Resource // value at each Watch registration (nil = absent)
+}
+
+func (ip *Interpose) actor() string {
+	if ip.inEnv {
+		return "env"
+	}
+	return "caller"
+}
+
+func (ip *Interpose) boundary(op string, p resource.Pointer) {
+	if ip.inEnv {
+		return
+	}
+	ip.CallerCalls++
+	if ip.Env != nil {
+		ip.inEnv = true
+		ip.Env(op, p)
+		ip.inEnv = false
+	}
+}
+
+func (ip *Interpose) cur(ctx context.Context, p resource.Pointer) resource.Resource {
+	r, err := ip.Inner.Get(ctx, p)
+	if err != nil {
+		return nil
+	}
+	return r
+}
+
+func (ip *Interpose) Get(ctx context.Context, p resource.Pointer, o ...state.GetOption) (resource.Resource, error) {
+	ip.boundary("get", p)
+	r, err := ip.Inner.Get(ctx, p, o...)
+	if !ip.inEnv {
+		if err != nil {
+			ip.CallerReads = append(ip.CallerReads, nil)
+		} else {
+			ip.CallerReads = append(ip.CallerReads, r.DeepCopy())
+		}
+	}
+	return r, err
+}
+
+func (ip *Interpose) List(ctx context.Context, k resource.Kind, o ...state.ListOption) (resource.List, error) {
+	ip.boundary("list", resource.NewMetadata(k.Namespace(), k.Type(), "", resource.VersionUndefined))
+	return ip.Inner.List(ctx, k, o...)
+}
+
+func (ip *Interpose) Create(ctx context.Context, r resource.Resource, o ...state.CreateOption) (err error) {
+	ip.boundary("create", r.Metadata())
+	verif.Atomic(func() {
+		before := ip.cur(ctx, r.Metadata())
+		err = ip.Inner.Create(ctx, r, o...)
+		if err == nil {
+			ip.Log = append(ip.Log, Write{ip.actor(), "create", before, ip.cur(ctx, r.Metadata())})
+			if ip.inEnv {
+				ip.EnvWrites++
+			}
+		}
+	})
+	return err
+}
+
+func (ip *Interpose) Update(ctx context.Context, r resource.Resource, o ...state.UpdateOption) error {
+	ip.boundary("update", r.Metadata())
+	if !ip.inEnv {
+		ip.CallerUpdates++
+	}
+	var err error
+	verif.Atomic(func() {
+		before := ip.cur(ctx, r.Metadata())
+		err = ip.Inner.Update(ctx, r, o...)
+		if err == nil {
+			ip.Log = append(ip.Log, Write{ip.actor(), "update", before, ip.cur(ctx, r.Metadata())})
+			if ip.inEnv {
+				ip.EnvWrites++
+			}
+		}
+	})
+	return err
+}
+
+func (ip *Interpose) Destroy(ctx context.Context, p resource.Pointer, o ...state.DestroyOption) error {
+	ip.boundary("destroy", p)
+	var err error
+	verif.Atomic(func() {
+		before := ip.cur(ctx, p)
+		err = ip.Inner.Destroy(ctx, p, o...)
+		if err == nil {
+			ip.Log = append(ip.Log, Write{ip.actor(), "destroy", before, nil})
+			if ip.inEnv {
+				ip.EnvWrites++
+			}
+		}
+	})
+	return err
+}
+
+func (ip *Interpose) Watch(ctx context.Context, p resource.Pointer, ch chan<- state.Event, o ...state.WatchOption) (err error) {
+	ip.boundary("watch", p)
+	verif.Atomic(func() {
+		ip.WatchAt = append(ip.WatchAt, len(ip.Log))
+		ip.WatchInitial = append(ip.WatchInitial, ip.cur(ctx, p))
+		err = ip.Inner.Watch(ctx, p, ch, o...)
+	})
+	return err
+}
+
+func (ip *Interpose) WatchKind(ctx context.Context, k resource.Kind, ch chan<- state.Event, o ...state.WatchKindOption) error {
+	return ip.Inner.WatchKind(ctx, k, ch, o...)
+}
+
+func (ip *Interpose) WatchKindAggregated(ctx context.Context, k resource.Kind, ch chan<- []state.Event, o ...state.WatchKindOption) error {
+	return ip.Inner.WatchKindAggregated(ctx, k, ch, o...)
+}
+
+// CallerWrites returns the committed writes of the party under test.
+func (ip *Interpose) CallerWrites() []Write {
+	var ws []Write
+	for _, w := range ip.Log {
+		if w.Actor == "caller" {
+			ws = append(ws, w)
+		}
+	}
+	return ws
 }
